@@ -39,6 +39,7 @@ class CancelOracle(Monitor):
         self.deleted_by_handler = False
         ctx.w.user_hooks_b.append(self._hook_b)
         self.file_existed_before_ind = None
+        self.must_finish = None  # [what, calls since] - the receiver has everything it needs to finish
 
     def _hook_b(self, ent, item):
         pass
@@ -85,6 +86,7 @@ class CancelOracle(Monitor):
         else:
             w.probe(f"C12.dst_cancel_at:{pre.step}")
             self.dst_cancel_pending = True
+            self.must_finish = [f"cancel request at {pre.step}", 0]
             self.dst_fin_pending = c.mode == ACK or c.closure
             self.eof_cancel_pending = None  # the local cancel supersedes
             self.eof_cancel_fin_pending = None
@@ -113,7 +115,20 @@ class CancelOracle(Monitor):
         ):
             w.probe(f"C12.eof_cancel_at:{rec.pre.step}")
             self.eof_cancel_pending = (rec.inb_info[1], rec.pre.step)
+            if self.must_finish is None:
+                self.must_finish = [f"EOF (cancel) at {rec.pre.step}", -1]
             self.eof_cancel_fin_pending = (rec.inb_info[1], rec.pre.step) if (c.mode == ACK or c.closure) else None
+        # "finishes the transaction": neither a cancel request nor an accepted EOF (cancel) leaves the
+        # receiver waiting for anything from the peer, so the completion is due within a few calls
+        if self.must_finish is not None:
+            if fin_inds or fins or rec.post.state == "IDLE":
+                self.must_finish = None
+            else:
+                self.must_finish[1] += 1
+                if self.must_finish[1] >= 6:
+                    w.violate("C12.does_not_finish", f"{self.must_finish[0]} mode={c.mode.name[:5]} stuck in {rec.post.step}",
+                              f"{self.must_finish[1]} receiver calls later: no Transaction-Finished, no Finished PDU, not idle")
+                    self.must_finish = None
         if fin_inds:
             fi = fin_inds[0]
             cond = fi[2][0]
